@@ -6,9 +6,12 @@ from vlib import coq_hex, coq_list
 MANIFEST = {
     "text": "Coq theorems over an executable model of RpcPackageHandler.Read/Write, the head-map codec and getty's receive loop "
             "(C13_frame_exact, C13_frame_prefix, C13_stream_any_partition for ALL frame sequences and ALL partitions into reads, "
-            "C13_read_garbage / C13_no_spin for ALL byte strings, C13_headmap_roundtrip incl. empty keys/values); the model is tied "
+            "C13_read_garbage / C13_no_spin for ALL byte strings, C13_headmap_roundtrip incl. empty keys/values, C13_complete_frame_delivered / "
+            "C13_need_only_incomplete: need-more only for incomplete input, C13_interleaving: connections sharing the handler do not influence "
+            "each other); the model is tied "
             "to the current source on every run by driving the real Read exactly as getty's handleTCPPackage does over every prefix, "
-            "every 2-cut partition of short streams, random partitions of long ones, structured and random garbage, and comparing "
+            "every 2-cut partition of short streams, random partitions of long ones (each also through getty's reusable receive buffer, delivered "
+            "objects re-inspected at the end), two interleaved connections on one handler, structured and random garbage, and comparing "
             "(message, consumed, error class) and whole delivery sequences with the model evaluated by vm_compute; the property's own "
             "statement is evaluated on the real run as a direct oracle.",
     "note": "Trusted: Coq kernel + vm_compute, no axioms; harness/frame (loop transcription of getty v1.5.0 session.handleTCPPackage, "
@@ -30,7 +33,7 @@ Import ListNotations. Open Scope N_scope.
 """
 ERR = {1: "Read(data) differs from the model's frame_read", 2: "Read on a prefix differs from frame_read on that prefix",
        3: "deliveries of the receive loop differ from the model's drive", 4: "Write differs from the model's frame_write",
-       5: "malformed case"}
+       5: "malformed case", 6: "per-connection deliveries of two interleaved connections differ from the model (drive2)"}
 
 
 def msg_term(m):
@@ -54,7 +57,7 @@ def ev_term(e):
     k = e["e"]
     if k == "deliver":
         return "(EDeliver %s)" % msg_term(e["m"])
-    return {"close": "EClose", "spin": "ESpin", "panic": "EPanic", "diverged": "EDiverged"}[k]
+    return {"close": "EClose", "spin": "ESpin", "panic": "EPanic", "diverged": "EDiverged", "stall": "EDiverged"}[k]
 
 
 def nat_list(l):
@@ -66,6 +69,14 @@ def terms_of(data):
     out = []
     for i, c in enumerate(data["reads"]):
         out.append(("reads", i, "(CRead %s %s)" % (coq_hex(c["data"]), res_term(c["res"])), len(c["data"]) // 2))
+    for i, c in enumerate(data["reads"]):
+        if c.get("after"):   # the same bytes on a handler with a history: the model knows no history
+            out.append(("reads", i, "(CRead %s %s)" % (coq_hex(c["data"]), res_term(c["after"])), len(c["data"]) // 2))
+    for i, c in enumerate(data.get("interleaves") or []):
+        sched = coq_list(["(%s, %d%%nat)" % ("true" if sd else "false", n) for sd, n in c["sched"]])
+        out.append(("interleaves", i, "(CInterleave %s %s %s %s %s)" % (
+            coq_hex(c["a"]), coq_hex(c["b"]), sched, coq_list([ev_term(e) for e in c["ev_a"] or []]),
+            coq_list([ev_term(e) for e in c["ev_b"] or []])), (len(c["a"]) + len(c["b"])) // 2 * (2 + len(c["sched"]) // 4)))
     for i, c in enumerate(data["prefixes"]):
         n = len(c["data"]) // 2
         out.append(("prefixes", i, "(CPrefixes %s %s %s)" % (
@@ -127,7 +138,7 @@ def eval_model(cases):
 
 def slim(kind, c):
     """a replayable single case (Result-shaped: the harness's replay= input)"""
-    d = {"reads": [], "prefixes": [], "drives": [], "writes": []}
+    d = {"reads": [], "prefixes": [], "drives": [], "writes": [], "interleaves": []}
     c = dict(c)
     if kind == "drives" and c.get("bad_at", -1) >= 0:
         bad = c["parts"][c["bad_at"]]
@@ -161,10 +172,10 @@ def run(chk, replay_input=None):
         json.dump(replay_input, open(rp, "w"))
         data, secs = vlib.run_harness("frame", chk.tmp("frame.json"), replay=rp)
     elif quick:
-        data, secs = vlib.run_harness("frame", chk.tmp("frame.json"), seed=chk.seed, n=36, garbage=260, maxcut2=60, nrand=10)
+        data, secs = vlib.run_harness("frame", chk.tmp("frame.json"), seed=chk.seed, n=30, garbage=220, maxcut2=60, nrand=8)
     else:
         data, secs = vlib.run_harness("frame", chk.tmp("frame.json"), timeout=1500, seed=chk.seed, n=700, garbage=5000, maxcut2=90, nrand=40)
-    for k in ("reads", "prefixes", "drives", "writes"):
+    for k in ("reads", "prefixes", "drives", "writes", "interleaves"):
         data[k] = data.get(k) or []
         for c in data[k]:
             for f in ("tbl", "obs", "parts"):
@@ -175,7 +186,7 @@ def run(chk, replay_input=None):
     # ---- classification
     reported = set()
     n_oracle = 0
-    for kind in ("drives", "prefixes", "reads", "writes"):
+    for kind in ("interleaves", "drives", "prefixes", "reads", "writes"):
         for i, c in enumerate(data[kind]):
             if not c["oracle"]:
                 continue
@@ -206,7 +217,8 @@ def run(chk, replay_input=None):
     # ---- evidence
     n_pref = sum(len(c["obs"]) for c in data["prefixes"])
     n_parts = sum(len(c["parts"]) for c in data["drives"])
-    evaluations = len(data["reads"]) + n_pref + n_parts + len(data["writes"])
+    n_after = sum(1 for c in data["reads"] if c.get("after"))
+    evaluations = len(data["reads"]) + n_after + n_pref + 2 * n_parts + len(data["writes"]) + len(data["interleaves"])
     nontriv = set()
     for c in data["reads"]:
         if c["res"]["c"] in ("msg", "err"):
@@ -241,7 +253,9 @@ def run(chk, replay_input=None):
         "distinct_nontrivial": len(nontriv),
         "rule": "evaluations = single Read calls compared (%d) + prefixes compared (%d) + partitions driven through the receive loop (%d) "
                 "+ Write outputs compared (%d); non-trivial = the observation contains a delivered message or an error/close "
-                "(the header was parsed), distinct by (bytes[, cut positions])" % (len(data["reads"]), n_pref, n_parts, len(data["writes"])),
+                "(the header was parsed), distinct by (bytes[, cut positions]); also counted: the same bytes read again on a handler with a history (%d), "
+                "every partition driven a second time through getty's reusable receive buffer with the delivered objects re-inspected at the end, "
+                "two-connection interleavings on one handler (%d)" % (len(data["reads"]), n_pref, n_parts, len(data["writes"]), n_after, len(data["interleaves"])),
         "traces_validated_against_impl": evaluations - sum(1 for _ in corr) - n_oracle,
         "real_read_calls": data.get("read_calls"),
         "model_case_terms": len(cases), "model_mismatching_cases": len(mism),
